@@ -31,6 +31,9 @@ def corpus():
         # loss + overtaking + duplication of plain DATA, repaired by one round
         parse_line(PRE % (64, 1, 0, 0) + " ; R 0 1 rel=1 dur=0 ; netm ; w 0 1 10 11 ; w 0 2 10 22 ; w 0 1 10 33 ; dr 0 ; "
                    "dl 1 ; du 0 ; wa 0 ; adv 250000000 ; pu ; wp ; t 0 0 ; q"),
+        # the heartbeat period: nothing after 150 ms, a HEARTBEAT exactly 200 ms after the last one
+        parse_line(PRE % (1344, 1, 0, 0) + " ; R 0 1 rel=1 dur=0 ; netm ; w 0 1 10 1 ; dr 0 ; adv 150000000 ; q ; "
+                   "adv 50000000 ; q ; adv 200000000 ; q ; pu ; t 0 0 ; q"),
         # late VOLATILE reliable reader: GAPs for the old samples are lost, the HEARTBEAT repairs
         parse_line(PRE % (128, 1, 0, 0) + " ; w 0 1 4 1 ; w 0 1 0 2 ; adv 200000000 ; R 0 1 rel=1 dur=0 ; netm ; w 0 1 0 3 ; "
                    "q ; dr 0 ; dr 0 ; x dr DATA 3 -1 ; adv 250000000 ; pu ; adv 250000000 ; pu ; t 0 0 ; q"),
@@ -44,18 +47,26 @@ MANIFEST = {
              "SAFETY, unbounded: for every QoS configuration and EVERY finite schedule of writes, removals, time ticks, "
              "deliveries in any order, drops, duplications, matches and deletions (fragmented samples included) the "
              "list the reader presents is a subsequence of the publication log, in publication order, strictly "
-             "increasing in sequence number (exactly-once at most) and payload-identical; by induction over the "
-             "schedule with an authenticity invariant on everything in flight or buffered. LIVENESS: the statement at "
-             "full strength is stated and refuted by a witness (known finding C01-gap-skip: a GAP raises "
-             "highest_received past an undelivered, still held sample); see the note for the proved part. The model is "
-             "tied to the code by running each scenario on the real stack in a deterministic simulation and comparing "
-             "inside Coq every observation (take results, API results, simulated time, the complete content of the "
-             "datagram queue) with the model's prediction; the oracle (in-order duplicate-free checksum-identical "
-             "subsequence; after the healing rounds every retained relevant sample was presented) judges the real "
-             "observations."),
+             "increasing in sequence number (at most once) and payload-identical; by induction over the schedule with "
+             "an authenticity invariant on everything in flight or buffered. LIVENESS: the statement at full strength "
+             "is stated and refuted by a witness (known finding C01-gap-skip: a GAP raises highest_received past an "
+             "undelivered, still held sample). Proved part (stage 1: KEEP_ALL writer, samples that fit one DATA "
+             "submessage, no removal, reader not deleted, at most 256 samples): after ANY such schedule - all loss, "
+             "duplication, reordering and delay patterns, late joiners - one heartbeat period (five worker ticks) and "
+             "ANY loss-free delivery sequence (single deliveries in any order, FIFO pumps), whenever nothing is queued "
+             "any more every change the writer holds and that is relevant for the reliable reader has been presented; "
+             "by a class invariant (GAPs only cover irrelevant samples, nothing relevant below highest_received is "
+             "skipped) and a healing invariant (the newest HEARTBEAT is on its way or processed; once processed the "
+             "newest ACKNACK, which requests the last sample, is on its way; processing it makes the writer emit a "
+             "newer HEARTBEAT). The model is tied to the code by running each scenario on the real stack in a "
+             "deterministic simulation and comparing inside Coq every observation (take results, API results, "
+             "simulated time, the complete content of the datagram queue) with the model's prediction; the oracle "
+             "(in-order duplicate-free checksum-identical subsequence; after the healing rounds every retained "
+             "relevant sample was presented) judges the real observations, fragmented samples included."),
     "note": ("Trusted: Coq kernel, hand model RelModel.v (correspondence-checked on every run), simulation harness, "
              "generator. Axioms: none. Known finding C01-gap-skip (KEEP_LAST histories with several instances). "
-             "Fragment repair works since 9534038/46bd1ab (lost fragments and completely lost fragmented samples are "
-             "recovered; checked by correspondence on every run, byte-level reassembly is C05). One writer/reader pair."),
-    "technique": "Coq proof (invariants over all schedules, refutation witness) + differential correspondence on a deterministic whole-stack simulation",
+             "Liveness for fragmented samples and KEEP_LAST with one instance is covered by the correspondence run "
+             "only (fragment repair works since 9534038/46bd1ab; byte-level reassembly is C05); termination of the "
+             "healing exchange is observed on every scenario, not proved. One writer/reader pair."),
+    "technique": "Coq proof (invariants over all schedules, healing invariant, refutation witness) + differential correspondence on a deterministic whole-stack simulation",
 }
